@@ -92,6 +92,27 @@ def r1_placement(a, tier):
             if calls or via:
                 rep.fail(fn.qualname, 'skips', f'{name}() skips whitespace ({norm((calls + via)[0])}): the documentation says '
                          f'whitespace is never skipped before this element', f'{fn.module.relpath}:{(calls + via)[0].lineno}')
+    # who may skip at all: whitespace is skipped where the table says and nowhere else - not at the entry of a parse (an upper-case start rule
+    # or a pattern must see the text as it is), not in the optimizer, not in a model node
+    holders = {f'{CTX}.{n}' for n in SKIP} | {f'{ENGINE}.{n}' for n in SKIP_ENGINE} | {f'{ENGINE}.call', f'{ENGINE}.rule_call', f'{CORE}.next_token', f'{CTX}.skip_to'}
+    n_sites = 0
+    for f in a.p.functions.values():
+        if not f.module.name.startswith(('tatsu.contexts', 'tatsu.peg', 'tatsu.parsing', 'tatsu.api')) or f.module.name.startswith(('tatsu.contexts.tracing',)):
+            continue
+        for n in walk_no_defs(f.node):
+            if isinstance(n, ast.Call) and isinstance(n.func, ast.Attribute) and n.func.attr == 'next_token':
+                n_sites += 1
+                top = f
+                while top.parent is not None:
+                    top = top.parent
+                ok = top.qualname in holders or a.callgraph.only_reached_through(top.qualname, holders)
+                rep.add({'next_token_call_in': f.qualname, 'in_the_placement_table': ok})
+                if not ok:
+                    rep.fail(f.qualname, f'skips-outside-the-table:{norm(n)}', f'`{norm(n)}` in {f.qualname}: whitespace and comments are skipped at a place the documented table does not '
+                             f'name (before tokens, constants, void, end of text, the meta matchers and at the entry of lower-case rules) - e.g. in front of an upper-case start '
+                             f'rule or a pattern, which must see the text as it is', f'{f.module.relpath}:{n.lineno}')
+    if n_sites < 10:
+        raise AnalysisError(f'C09.R1: only {n_sites} next_token call sites found in the engine (hand-confirmed: 15)')
     # matcher sites that must not skip on the cursor side: cursor.matchre
     # rule entry
     for q in (f'{ENGINE}.call', f'{ENGINE}.rule_call'):
